@@ -151,6 +151,25 @@ def h_apply_symcredit(E, grades_idx):
     return [str(e['ok']) for e in il] + [NOTE in r['overall_message']]
 
 
+def h_note_attempt(E, kind):
+    """the note names the attempt the credit was computed for: attempts below 1 count as attempt 1 in the note too (author-defined schedule that
+    already reduces the first attempt, so that the note appears)"""
+    import mitxgraders.baseclasses as B
+    from mitxgraders import ListGrader
+    a = E.fork_int('attempt', -3, 4)
+    T = {(e, s_): E.real('g_%s_%s' % (e, s_), 0, 1, lo_open=True) for e in ('e0', 'e1') for s_ in ('s0', 's1')}
+    TG = make_table_grader(T)
+    with shadow(B, float=sym_float):
+        if kind == 'single':
+            r = TG(answers='e0', attempt_based_credit=lambda n: 0.5)(None, 's0', attempt=a)
+            text = r['msg']
+        else:
+            r = ListGrader(answers=['e0', 'e1'], subgraders=TG(), ordered=True, attempt_based_credit=lambda n: 0.5)(None, ['s0', 's1'], attempt=a)
+            text = r['overall_message']
+    E.check('note-names-the-effective-attempt', ('Maximum credit for attempt #%d is 50%%.' % max(a, 1)) in text)
+    return 'ok'
+
+
 def h_apply_list(E, credit_idx, n, ordered, debug=False):
     """list result, symbolic base grades, palette schedule value"""
     import mitxgraders.baseclasses as B
@@ -251,6 +270,8 @@ def harnesses(tier):
     add(h_apply_list, 'apply_list', dict(credit=2, n=3, ordered=True), 'symbolic grades in [0,1], attempt in [-2,5]')
     for ci in (1, 2):
         add(h_apply_list, 'apply_list', dict(credit=ci, n=2, ordered=True, debug=True), 'debug log switched on: the note survives next to the log')
+    for kind in ('single', 'list'):
+        add(h_note_attempt, 'note_attempt', dict(kind=kind), 'attempt -3..4, schedule value 0.5 at every attempt, grades in (0,1]')
     for kind in ('single', 'list', 'single-inferred-answer', 'string-inferred-answer', 'attempt-None'):
         add(h_missing_attempt, 'missing_attempt', dict(kind=kind), 'no attempt passed')
     for sn in ('linear', 'geometric', 'reciprocal'):
